@@ -14,6 +14,7 @@ FORBIDDEN = {
         [(b, "C0 control") for b in C0]
         + [(0x7F, "DEL control"), (0x25, "'%' (creates a new escape)")]
         + [(ord(c), "userinfo delimiter %r" % c) for c in "@:/?#"]
+        + [(ord(c), "bracket %r (urlsplit reads a netloc with a bracket as an IPv6 literal: the result does not re-parse)" % c) for c in "[]"]
     ),
     "path": dict(
         [(b, "C0 control") for b in C0]
@@ -75,12 +76,28 @@ def rule_decode_set(ctx, rule, m, params, sets):
     hexd = sorted(set(b"0123456789ABCDEFabcdef"))
     for name, comp in sorted(F.COMPONENTS.items()):
         pr = params[name]
+        # such a context only exists when a malformed '%' is written raw: when it is spelled %25 the output buffer never
+        # ends with a bare '%' or '%X', and the guard has nothing to protect
+        if all(m.malformed(it, {"only_printable": pr.get("only_printable"), "unsafe": pr.get("unsafe")}).startswith(b"%25") for it in (b"", b"4", b"f")):
+            ctx.ob(rule, "no-new-escape/%s/no-dangling-context" % comp, True, "", site, sample="%s never leaves a bare '%%' in its output (malformed pieces are written %%25...)" % name)
+            continue
         for prefix in (b"%", b"%4", b"%f", b"a%"):
             for b in hexd:
                 d = m.decision(b, {"only_printable": pr.get("only_printable"), "unsafe": pr.get("unsafe")}, prefix=prefix)
                 ctx.ob(rule, "no-new-escape/%s/%s+0x%02X" % (comp, prefix.decode(), b), d == "keep",
                        "%s decodes %%%02X right after the dangling %r: the output contains the new escape %r (%s%%%02X decodes differently on the next pass)" % (name, b, prefix.decode(), (prefix + bytes([b])).decode(), prefix.decode(), b),
                        site, witness=prefix.decode() + "%%%02X" % b, sample="%s: %r + %%%02X -> %s" % (name, prefix.decode(), b, d) if b == 0x41 and prefix == b"%4" else None)
+    # a '%' that starts no valid escape is literal text: where '%' must stay escaped it is written %25
+    for name, comp in sorted(F.COMPONENTS.items()):
+        pr = params[name]
+        pp = {"only_printable": pr.get("only_printable"), "unsafe": pr.get("unsafe")}
+        pct_kept = 0x25 not in sets[name]
+        for item in (b"", b"z", b"zz/t", b"4", b"4g", b" 1"):
+            got = m.malformed(item, pp)
+            exp = (b"%25" if pct_kept else b"%") + item
+            ctx.ob(rule, "malformed-percent/%s/%s" % (comp, item.decode()), got == exp,
+                   "%s writes the malformed piece %r as %r, expected %r: %%25 stays escaped in the %s, so a literal '%%' must be spelled %%25 too (else quoting the result and unquoting it again gives another string: '100%%' -> '100%%25' -> '100%%25')" % (name, (b"%" + item).decode(), got.decode("latin-1"), exp.decode(), comp),
+                   site, witness="http://a.com/100%" + item.decode(), sample="%s: %r -> %r" % (name, (b"%" + item).decode(), got.decode("latin-1")) if item == b"zz/t" else None)
     if ctx.tier == "thorough":
         # the decision for a non-hex byte must not depend on what the output buffer already holds
         nonhex = [b for b in range(256) if b not in hexd]
@@ -144,7 +161,7 @@ def rule_lossy(ctx, rule):
 
 
 def rule_space(ctx, rule):
-    ctx.rule(rule, "no-raw-space: every return path of quote.unquote taken with normalize_space=True passes the space -> %20 rewrite, and each of the four safely_unquote_* bindings sets normalize_space=True and only_printable=True")
+    ctx.rule(rule, "no-raw-space: every return path of quote.unquote taken with normalize_space=True passes a substitution whose pattern matches every whitespace character (regex-language inclusion of \\s) and whose callback percent-encodes the match, and each of the four safely_unquote_* bindings sets normalize_space=True and only_printable=True")
     q = ctx.repo.mod("quote")
     try:
         binds = F.unquote_bindings(ctx.repo)
@@ -160,7 +177,31 @@ def rule_space(ctx, rule):
     ex = P.Extractor(ctx.repo, atomic={"ural.quote._generate_unquoted_parts"})
     rets = [r for r in ex.function(ref) if r.kind == "return"]
     ctx.require_instances(rule, len(rets), 1, "return paths of unquote")
-    repl = lambda x: x[0] == "method" and x[1] == "replace" and len(x[3]) == 2 and x[3][0] == ("const", " ") and x[3][1] == ("const", "%20")
+    ascii_only = lambda x: x[0] == "method" and x[1] == "replace" and len(x[3]) == 2 and x[3][0] == ("const", " ") and x[3][1] == ("const", "%20")
+
+    def escapes_whitespace(x):
+        """PATTERN.sub(callback, .) where PATTERN matches every whitespace character (as str.strip() / str.split()
+        understand it) and the callback percent-encodes the match"""
+        op = F.regex_op(x)
+        if op is None or op[1] != "sub" or len(op[2]) < 2 or op[2][0][0] != "funcref":
+            return False
+        mod, _, name = op[0].rpartition(".")
+        try:
+            rx = ctx.repo.const(ctx.repo.mod(mod), name)
+            if not isinstance(rx, Regex) or rx.is_bytes:
+                return False
+            A = Algebra()
+            if A.subset(A.regex(r"\s", 0, "fullmatch"), A.regex(rx.pattern, rx.flags, "fullmatch")) is not None:
+                return False
+            cmod, _, cname = op[2][0][1].rpartition(".")
+            import re as _re
+            from ..microeval import run_function
+            cb = ctx.repo.mod(cmod).func(cname)
+            return all(run_function(ctx.repo, cb, [_re.match(r"[\s\S]", ch)]) == exp for ch, exp in ((" ", "%20"), ("\xa0", "%C2%A0"), ("\t", "%09"), ("\u3000", "%E3%80%80")))
+        except (Unknown, AnalysisError, Unsupported):
+            return False
+
+    repl = lambda x: escapes_whitespace(x)
     for i, r in enumerate(rets):
         # path feasible with normalize_space=True ?
         feasible = True
@@ -174,9 +215,11 @@ def rule_space(ctx, rule):
         bad = F.unguarded_paths(t, lambda x: x[0] == "param" and x[1] == "string", repl)
         condtxt = " and ".join(("" if pol else "not ") + P.show(c, maxdepth=4) for c, pol in r.conds) or "always"
         key = "no-raw-space/unquote/return-when[%s]" % condtxt
+        only_ascii = bad and not F.unguarded_paths(t, lambda x: x[0] == "param" and x[1] == "string", ascii_only)
         ctx.ob(rule, key, not bad,
-               "quote.unquote returns its argument without the ' ' -> '%%20' rewrite on the path [%s]" % condtxt,
-               q.site(r.node), witness="a b",
+               ("quote.unquote only rewrites the ASCII space on the path [%s]: a decoded U+00A0 / U+3000 stays raw and is stripped by the next cleaning pass (canonicalize_url('http://a.com/x%%C2%%A0') is not idempotent)" % condtxt) if only_ascii else
+               ("quote.unquote returns its argument without the whitespace -> escape rewrite on the path [%s]" % condtxt),
+               q.site(r.node), witness="http://a.com/x%C2%A0" if only_ascii else "a b",
                sample="return path [%s] -> %s" % (condtxt, P.show(t, maxdepth=5)))
 
 
